@@ -664,6 +664,33 @@ func c14MalformedMTU(st *c14State, frame []byte) (what string) {
 	return ""
 }
 
+// c14Rejected delivers an advertisement with malformed options: if the handler rejects it, it must not have learned a
+// router from it.
+func c14Rejected(st *c14State, frame []byte) (what string) {
+	defer func() {
+		if e := recover(); e != nil {
+			what = fmt.Sprintf("panic: %v @%s", e, panicSite())
+			st.s = nil
+		}
+	}()
+	if st.s == nil {
+		st.s, _ = env.NewSession(env.DefaultNIC(), packet.Config{})
+	}
+	icmp.VerifReset()
+	h, _ := icmp.New6(st.s)
+	f, err := st.s.Parse(append([]byte(nil), frame...))
+	if err != nil {
+		return ""
+	}
+	if err := h.ProcessPacket(f); err == nil {
+		return "" // accepted (lenient decoding of this shape is not constrained here)
+	}
+	if len(h.LANRouters) != 0 || h.Router != nil {
+		return fmt.Sprintf("rejected-advertisement learned: ProcessPacket returned an error but the router table has %d entries (default router set: %v)", len(h.LANRouters), h.Router != nil)
+	}
+	return ""
+}
+
 // prefixBytes returns the ceil(bits/8) leading bytes of a prefix with the bits beyond the prefix length cleared.
 func prefixBytes(a [16]byte, bits int) []byte {
 	n := (bits + 7) / 8
@@ -797,6 +824,27 @@ func c14LearnSweep(c *core.Ctx) {
 		}
 		c.Distinct(frame)
 	}
+	// advertisements the decoder rejects: whatever a rejected advertisement says, no router may be learned from it
+	// (and none may become the router the spoof loops impersonate)
+	prefixOK := on("prefix/64").raw
+	for name, raw := range map[string][]byte{
+		"prefix-truncated":      prefixOK[:16],
+		"prefix-then-truncated": append(append([]byte(nil), prefixOK...), prefixOK[:24]...),
+		"zero-length-option":    {3, 0, 0, 0, 0, 0, 0, 0},
+		"slla-then-zero-length": append(append([]byte(nil), on("slla").raw...), 1, 0, 0, 0, 0, 0, 0, 0),
+		"length-beyond-message": {25, 9, 0, 0, 0, 0, 0, 60, 1, 2, 3, 4, 5, 6, 7, 8},
+	} {
+		if !next() {
+			continue
+		}
+		c.Count("evaluations", 1)
+		body := refnet.RA(64, 0x40, 1800, 0, 0, raw)
+		frame := refnet.Eth([]byte{0x33, 0x33, 0, 0, 0, 1}, env.RouterMAC, 0x86dd, refnet.IP6(env.RouterLLA, mc6, 58, 255, refnet.ICMP6(env.RouterLLA, mc6, 134, 0, body), -1))
+		if what := c14Rejected(st, frame); what != "" && !differential {
+			c.Violate("router-learning|"+firstWords(what, 2), fmt.Sprintf("RA with malformed options (%s): %s", name, what), c14Replay{Kind: "rabad", Frame: hex.EncodeToString(frame)})
+		}
+		c.Distinct(frame)
+	}
 	// all 256 flag bytes for a few representative option lists
 	for fl := 0; fl < 256; fl++ {
 		if !next() {
@@ -879,6 +927,10 @@ func init() {
 			if jsonUnmarshal(data, &r) == nil && r.Kind == "ra" {
 				f, _ := hex.DecodeString(r.Frame)
 				return c14Check(&c14State{}, f)
+			}
+			if r.Kind == "rabad" {
+				f, _ := hex.DecodeString(r.Frame)
+				return c14Rejected(&c14State{}, f)
 			}
 			if r.Kind == "ramtu" {
 				f, _ := hex.DecodeString(r.Frame)
